@@ -1742,6 +1742,65 @@ def vc_worker_errors_checked(fns, variants, work):
 
 
 # ------------------------------------------------------------------------------------------ C02 / C03 / C20: bookkeeping between hunks
+def vc_rollback_view_recorded(fns, variants, work):
+    """apply_modify in rollback mode: each hunk is undone through the view built with the direction passed in and the fuzz
+    level RECORDED for that hunk in the report being rolled back (HunkApplyReport::Applied.fuzz), never the caller's fuzz
+    argument (rollback() passes 0) -- a hunk that went in with fuzz has to be found again with the same trimmed view."""
+    fn = find_fn(fns, r"::apply_modify$")
+    found, reached = [], {"rollback_views": 0, "normal_views": 0}
+    mode_param = [k for k, t in fn.types.items() if re.fullmatch(r"_\d+", k) and int(k[1:]) <= fn.nparams and "ApplyMode" in t][0]
+    dir_param = [k for k, t in fn.types.items() if re.fullmatch(r"_\d+", k) and int(k[1:]) <= fn.nparams and t.strip().endswith("PatchDirection")][0]
+    RB = variants["Rollback"]
+    fz_idx = mirvc.variant_field_index("HunkApplyReport", "Applied", "fuzz") if hasattr(mirvc, "variant_field_index") else 4
+
+    def on_stmt(eng, st, bb, s):
+        m = re.match(r"(_\d+) = copy \(\(.* as Applied\)\.%d: usize\)$" % fz_idx, s)
+        if m:
+            st.ghost = frozenset(g for g in st.ghost if not g.startswith("rf:")) | {"rf:" + m.group(1)}
+
+    def on_call(eng, st, bb, site, stmt, dst, callee, args, nxt):
+        if not re.search(r"Hunk::<.*>::view$", callee):
+            return None
+        # the mode parameter's discriminant, by the name the engine gives a parameter's lazily materialised field
+        d = z3.BitVec("in_%s#disc" % mode_param, 64)
+        normal_possible, _ = eng.feasible(st, [d != RB])
+        if normal_possible:
+            reached["normal_views"] += 1
+            return None
+        reached["rollback_views"] += 1
+        fz, _, _ = eng.operand(st, args[2])
+        dr, dpth, _ = eng.operand(st, args[1])
+        rfs = [g[3:] for g in st.ghost if g.startswith("rf:")]
+        if not rfs or fz is None or not z3.is_bv(fz):
+            found.append({"bb": bb, "stmt": stmt[:160], "what": "rollback builds a hunk view without reading the fuzz level recorded for that hunk", "model": {}, "trace": list(st.trace[-12:])})
+            return None
+        rec = st.store.get(rfs[0])
+        if rec is None or not z3.is_bv(rec):
+            rec = eng.read_path(st, rfs[0], "usize")
+        ok, model = eng.feasible(st, [fz != rec])
+        eng.record_query("%s rollback view fuzz" % bb, list(st.pc) + [fz != rec])
+        if ok:
+            found.append({"bb": bb, "stmt": stmt[:160], "what": "rollback undoes a hunk through a view of another fuzz level than the one recorded when it applied", "model": model_values(model, ("in_", "c_")), "trace": list(st.trace[-12:])})
+        if args[1].strip() not in ("copy " + dir_param, "move " + dir_param):
+            found.append({"bb": bb, "stmt": stmt[:160], "what": "rollback view is not built with the direction handed to apply_modify", "model": {}, "trace": []})
+        return None
+
+    eng = Engine(fns, fn, variants, hooks={"on_call": on_call, "on_stmt": on_stmt})
+    seeds = {mode_param, dir_param}
+    for bb, stmts in fn.blocks.items():
+        for s_ in stmts:
+            m = re.match(r"(_\d+) = copy \(\(.* as Applied\)\.%d: usize\)$" % fz_idx, s_)
+            if m:
+                seeds.add(m.group(1))
+            m = callm(s_)
+            if m and re.search(r"Hunk::<.*>::view$", m.group(2)):
+                seeds |= set(re.findall(r"_\d+", m.group(3)))
+    eng.seeds = seeds
+    eng.run()
+    return summarize(eng, found, {"rollback_view_sites_reached": reached["rollback_views"], "normal_view_sites_reached": reached["normal_views"]}, work, "c04f",
+                     witness_ok=reached["rollback_views"] > 0 and reached["normal_views"] > 0, witness_note="expected view calls in both modes: %r" % reached)
+
+
 def vc_apply_bookkeeping(fns, variants, work):
     """apply_modify (normal mode): the `last_hunk_offset` and `last_frozen_line` handed to try_apply_hunk for a hunk are those of
     the most recent hunk that was reported applied -- offset = its report's offset, frozen line = its line + |trimmed old side|
